@@ -29,6 +29,8 @@ func init() {
 }
 
 func runC04(w *World, r *Report) {
+	hrFlowGraphNodeEqual(w, r, "R7")
+	hrSystemFlows(w, r, "R8")
 	// what the interpreter is given to execute: selection and merge of the matched flows (C03.R9)
 	r.Borrow(w, func(w *World, r *Report) {
 		c03ReadOnlySelection(w, r)
